@@ -225,6 +225,7 @@ fn c10probe() {
       if mech_syntax::parser::parse(&doc).is_err() { bad += 1; if shown < 6 { shown += 1; println!("=== does not parse ===\n{}\n", doc); } }
     }
     println!("{} of {} documents do not parse", bad, n);
+    println!("screen: {:?}", props::c10::PROSE.iter().map(|p| props::c10::prose_screen(p)).collect::<Vec<bool>>());
   }).unwrap();
   h.join().unwrap();
 }
